@@ -80,6 +80,7 @@ EnvTxs == {[k |-> "set_legacy", entries |-> e] : e \in {<<>>, <<[u |-> U1, i |->
           \cup {[k |-> "instantiate", c |-> "hub", sender |-> s, epoch |-> 2, unbonding |-> 5, fee |-> f, thr |-> t]
                   : s \in {"owner2"}, f \in DecVals \ {NoneDec}, t \in {D05, <<2, 0, 0>>}}
           \cup {[k |-> "instantiate", c |-> "dispatcher", sender |-> "owner2", rate |-> r] : r \in DecVals \ {NoneDec}}
+          \cup {[k |-> "instantiate", c |-> "dispatcher", sender |-> "owner2", rate |-> D05, stdenom |-> ""]}
           \cup {EvAdvance(3)}
 
 Next == \E tx \in AuthTxs \cup EnvTxs : IF OnlyOk THEN StepOk(tx) ELSE Step(tx)
